@@ -200,6 +200,14 @@ func ruleTAB1(w *World) []Ob {
 					}
 				}
 			})
+			allInstrs(f, func(in ssa.Instruction) {
+				// errors.Is(err, md.ErrX)
+				if c, ok := in.(*ssa.Call); ok && calleeFullName(c.Common()) == "errors.Is" {
+					if _, isP := resolve(c.Common().Args[0]).(*ssa.Parameter); isP && strings.HasPrefix(globalName(c.Common().Args[1]), "Err") {
+						cmp++
+					}
+				}
+			})
 			if cmp >= 2 && (fn == nil || p.FuncID(f) < p.FuncID(fn)) {
 				fn = f
 			}
@@ -221,8 +229,17 @@ func ruleTAB1(w *World) []Ob {
 				rowPrm = prm
 			}
 		}
-		atoms := []string{"ErrBlankLine", "ErrEmptyText", "ErrIncorrectFormat"}
+		atoms := []string{"ErrBlankLine", "ErrEmptyText", "ErrIncorrectFormat", "nilerr"}
 		atomOf := func(c ssa.Value) (string, bool, bool) {
+			// a defensive `err == nil` case (the mapper is only called with a non-nil error): its rows are not compared
+			if tv, nonNil, ok := nilTest(c, true); ok && sameVar(tv, errPrm) {
+				return "nilerr", nonNil, true
+			}
+			if call, ok := c.(*ssa.Call); ok && calleeFullName(call.Common()) == "errors.Is" && sameVar(call.Common().Args[0], errPrm) {
+				if g := globalName(call.Common().Args[1]); g != "" {
+					return g, false, true
+				}
+			}
 			b, ok := c.(*ssa.BinOp)
 			if !ok || (b.Op != token.EQL && b.Op != token.NEQ) {
 				return "", false, false
@@ -281,7 +298,7 @@ func ruleTAB1(w *World) []Ob {
 			continue
 		}
 		// atoms are mutually exclusive sentinels: rows with at most one atom true
-		want := map[string]string{"000": "same", "100": "nil", "010": "sentinel:errEmptyText", "001": "new:inputFormatError{row}"}
+		want := map[string]string{"0000": "same", "1000": "nil", "0100": "sentinel:errEmptyText", "0010": "new:inputFormatError{row}"}
 		var diffs []string
 		for k, v := range want {
 			if tab[k] != v {
